@@ -282,8 +282,13 @@ def check(ctx):
     # a reactor whose trigger can never fire must not keep a handle (registered for a dead entity => never collected);
     # shared with C08.c
     import c08
-    n8 = core.adopt(ctx, c08, lambda o: o["rule"] == "C08.c" and any(k in o["key"] for k in ("registers-only-live-entity", "consumes-registration", "tracker-not-replaced", "one-entity")), "C07.g")
+    n8 = core.adopt(ctx, c08, lambda o: o["rule"] == "C08.c" and any(k in o["key"] for k in ("registers-only-live-entity", "consumes-registration", "tracker-not-replaced", "one-entity", "never-removed-from-a-live-entity")), "C07.g")
     ctx.floor("C07.g", n8, 3, "shared despawn-registration obligations (C08.c)")
+    # the handle a despawn reaction parks in its tracker is taken out again whatever happens to the command: every path of
+    # the runner has exactly one disposition (run / postpone / abort), each of which runs the command's setup and cleanup
+    import c02 as _c02
+    n2 = core.adopt(ctx, _c02, lambda o: o["rule"] == "C02.a" and any(k in o["key"] for k in ("single-disposition", "dispositions=", "abort-only")), "C07.e")
+    ctx.floor("C07.e", n2, 2, "shared disposition obligations of the runner (C02.a)")
 
     # ---- C07.f who may despawn ----
     sites = despawn_sites(prog)
